@@ -1,5 +1,6 @@
 import LopdfModel.Thm.C11
 import LopdfModel.Thm.C12
+import LopdfModel.Lemmas.DictNoDup
 /-
   C11 — property theorems, part 2: the page-tree `Count` bookkeeping of `delete_pages`
   (`delete_pages_count`), over abstract page trees of any shape and size.
@@ -397,5 +398,194 @@ example : TreeOK [((1,0), .dict [(COUNT, .int 2)]), ((2,0), .dict [(COUNT, .int 
   constructor
   · simp [TreeOK, TreeOKL, Objects.get, Dict.get, PT.leavesL, PT.leaves, Obj.asInt, Obj.asRef, COUNT, PARENT]
   · simp [IsParent, IsParentL, DirectLeaf]
+
+
+/-! ### dictionaries with distinct keys: `delete_object` keeps the bookkeeping; content edits -/
+
+open Lopdf.DictL
+
+/-- content edits, with the dictionary hypothesis discharged: for a stream dictionary with pairwise
+distinct keys (every `IndexMap`) `set_plain_content` really leaves no `Filter` key -/
+theorem change_content_decodes_nodup (inflate : Bytes → Option Bytes) (deflate : Bytes → Bytes)
+    (hcodec : ∀ x, inflate (deflate x) = some x) (dict : Dict) (hn : NoDup dict) (c : Bytes) :
+    decodeStream inflate (plainThenCompress (deflate c) dict c) = some c := by
+  apply change_content_decodes inflate deflate hcodec dict c
+  rw [get_remove (nodup_remove hn _) kFilter kFilter]; simp
+
+/-- removing keys one after the other: any key that is not removed keeps its value -/
+theorem get_removeKeys {d : Dict} (hn : NoDup d) (ks : List Bytes) (q : Bytes) (hq : q ∉ ks) :
+    Dict.get (removeKeys d ks) q = Dict.get d q ∧ NoDup (removeKeys d ks) := by
+  induction ks generalizing d with
+  | nil => exact ⟨rfl, hn⟩
+  | cons k rest ih =>
+    simp only [List.mem_cons, not_or] at hq
+    simp only [removeKeys, List.foldl_cons]
+    have := ih (nodup_remove hn k) hq.2
+    refine ⟨?_, this.2⟩
+    have h1 := this.1
+    simp only [removeKeys] at h1
+    rw [h1, get_remove hn k q]
+    have : ¬ k = q := fun e => hq.1 e.symm
+    simp [this]
+
+/-- what `delete_object`'s action does to a dictionary entry that is not itself a reference to the deleted id -/
+theorem get_deep_del (p : ObjId) (nd : Dict) (hn : NoDup nd) (key : Bytes) (v : Obj)
+    (hv : Dict.get nd key = some v) (hnr : isRefTo p v = false) :
+    ∃ nd', deepObj (delAct p) (.dict nd) = .dict nd' ∧ Dict.get nd' key = some (deepObj (delAct p) v) := by
+  have hf : (delAct p).f (.dict nd) = .dict (removeKeys nd ((nd.filter (fun kv => isRefTo p kv.2)).map (·.1))) := rfl
+  refine ⟨_, deepObj_dict hf, ?_⟩
+  rw [dictGet_deepDict]
+  have hq : key ∉ (nd.filter (fun kv => isRefTo p kv.2)).map (·.1) := by
+    intro hm
+    obtain ⟨e, he, hek⟩ := List.mem_map.mp hm
+    have hmem := List.mem_filter.mp he
+    have : Dict.get nd key = some e.2 := get_some_of_mem hn (by rw [← hek]; exact hmem.1)
+    rw [hv] at this; cases this
+    rw [hnr] at hmem; exact absurd hmem.2 (by simp)
+  rw [(get_removeKeys hn _ key hq).1, hv]; rfl
+
+theorem deep_del_int (p : ObjId) (i : Int) : deepObj (delAct p) (.int i) = .int i := by
+  rw [deepObj_other] <;> simp [delAct, delFn]
+theorem deep_del_ref (p : ObjId) (n g : Nat) : deepObj (delAct p) (.ref n g) = .ref n g := by
+  rw [deepObj_other] <;> simp [delAct, delFn]
+
+
+theorem asRef_deep_del (p : ObjId) (v : Obj) : (deepObj (delAct p) v).asRef = v.asRef := by
+  cases v with
+  | arr items => rw [deepObj_arr (a := delAct p) (items := eraseFirstRef p items) rfl]; rfl
+  | dict es => rw [deepObj_dict (a := delAct p) (es := removeKeys es ((es.filter (fun kv => isRefTo p kv.2)).map (·.1))) rfl]; rfl
+  | stream es c => rw [deepObj_stream (a := delAct p) (es := es) (c := c) rfl]; rfl
+  | _ => rw [deepObj_other] <;> simp [delAct, delFn]
+
+theorem asInt_deep_del (p : ObjId) (v : Obj) : (deepObj (delAct p) v).asInt = v.asInt := by
+  cases v with
+  | arr items => rw [deepObj_arr (a := delAct p) (items := eraseFirstRef p items) rfl]; rfl
+  | dict es => rw [deepObj_dict (a := delAct p) (es := removeKeys es ((es.filter (fun kv => isRefTo p kv.2)).map (·.1))) rfl]; rfl
+  | stream es c => rw [deepObj_stream (a := delAct p) (es := es) (c := c) rfl]; rfl
+  | _ => rw [deepObj_other] <;> simp [delAct, delFn]
+
+/-- an entry whose value does not point at the deleted object survives `delete_object`'s rewriting of its
+dictionary; an absent key stays absent -/
+theorem get_deep_del' (p : ObjId) (nd : Dict) (hn : NoDup nd) (key : Bytes)
+    (hnr : ∀ v, Dict.get nd key = some v → isRefTo p v = false) :
+    ∃ nd', deepObj (delAct p) (.dict nd) = .dict nd' ∧
+      Dict.get nd' key = (Dict.get nd key).map (deepObj (delAct p)) := by
+  have hf : (delAct p).f (.dict nd) = .dict (removeKeys nd ((nd.filter (fun kv => isRefTo p kv.2)).map (·.1))) := rfl
+  refine ⟨_, deepObj_dict hf, ?_⟩
+  rw [dictGet_deepDict]
+  have hq : key ∉ (nd.filter (fun kv => isRefTo p kv.2)).map (·.1) := by
+    intro hm
+    obtain ⟨e, he, hek⟩ := List.mem_map.mp hm
+    have hmem := List.mem_filter.mp he
+    have : Dict.get nd key = some e.2 := get_some_of_mem hn (by rw [← hek]; exact hmem.1)
+    have := hnr e.2 this
+    rw [this] at hmem; exact absurd hmem.2 (by simp)
+  rw [(get_removeKeys hn _ key hq).1]
+
+theorem isRefTo_false_of_asRef (p : ObjId) (v : Obj) (top : Option ObjId) (h : v.asRef = top) (ht : top ≠ some p) :
+    isRefTo p v = false := by
+  cases v <;> simp [isRefTo, Obj.asRef] at h ⊢
+  rename_i n g
+  intro e; apply ht; rw [← h, e]
+
+theorem isRefTo_false_of_asInt (p : ObjId) (v : Obj) (c : Int) (h : v.asInt = some c) : isRefTo p v = false := by
+  cases v <;> simp [isRefTo, Obj.asInt] at h ⊢
+
+/-- the bookkeeping entries of a `Pages` node (or the `Parent` of a page) survive the deletion of another object -/
+theorem book_preserved (p : ObjId) (nd : Dict) (hn : NoDup nd) (top : Option ObjId) (htop : top ≠ some p)
+    (hp : (Dict.get nd PARENT).bind Obj.asRef = top) :
+    ∃ nd', deepObj (delAct p) (.dict nd) = .dict nd' ∧
+      (Dict.get nd' PARENT).bind Obj.asRef = top ∧
+      ∀ c, (Dict.get nd COUNT).bind Obj.asInt = some c → (Dict.get nd' COUNT).bind Obj.asInt = some c := by
+  have hf : (delAct p).f (.dict nd) = .dict (removeKeys nd ((nd.filter (fun kv => isRefTo p kv.2)).map (·.1))) := rfl
+  obtain ⟨nd1, e1, g1⟩ := get_deep_del' p nd hn PARENT (by
+    intro v hv
+    rw [hv] at hp
+    exact isRefTo_false_of_asRef p v top hp htop)
+  refine ⟨nd1, e1, ?_, ?_⟩
+  · rw [g1]; cases hg : Dict.get nd PARENT with
+    | none => rw [hg] at hp; simpa using hp
+    | some v => rw [hg] at hp; simp only [Option.map_some, Option.bind_some, asRef_deep_del]; simpa using hp
+  · intro c hc
+    cases hg : Dict.get nd COUNT with
+    | none => rw [hg] at hc; cases hc
+    | some v =>
+      rw [hg] at hc; simp only [Option.bind_some] at hc
+      obtain ⟨nd2, e2, g2⟩ := get_deep_del' p nd hn COUNT (by
+        intro v' hv'; rw [hg] at hv'; cases hv'; exact isRefTo_false_of_asInt p v c hc)
+      rw [e1] at e2; cases e2
+      rw [g2, hg]; simp only [Option.map_some, Option.bind_some, asInt_deep_del]; exact hc
+
+/-- the dictionaries of the tree's `Pages` nodes have pairwise distinct keys (every `IndexMap`) -/
+def NodesNoDup (os : Objects) (ids : List ObjId) : Prop := ∀ id ∈ ids, ∀ nd, os.get id = some (.dict nd) → NoDup nd
+
+mutual
+/-- `delete_object(p)` for a leaf page `p` leaves the tree's bookkeeping (`Count`, `Parent`) as it was -/
+theorem treeOK_delete (d : Doc) (p : ObjId) : ∀ (t : PT) (top : Option ObjId),
+    TreeOK d.objects top t → top ≠ some p → p ∉ nodeIds t → NodesNoDup d.objects (nodeIds t) →
+    TreeOK (deleteObject d p).1.objects top t
+  | .page _, _, _, _, _, _ => trivial
+  | .pages id ks, top, h, htop, hp, hnd => by
+    simp only [TreeOK] at h ⊢
+    obtain ⟨⟨nd, h1, h2, h3⟩, h4⟩ := h
+    simp only [nodeIds, List.mem_cons, not_or] at hp
+    have hne : id ≠ p := fun e => hp.1 e.symm
+    have hnn : NoDup nd := hnd id (by simp [nodeIds]) nd h1
+    obtain ⟨nd', e1, b1, b2⟩ := book_preserved p nd hnn top htop h3
+    refine ⟨?_, treeOKL_delete d p ks (some id) h4 (by simp; exact hne) hp.2
+      (fun x hx => hnd x (by simp [nodeIds, hx]))⟩
+    rw [(delete_effect d p).2.2 id hne, h1]
+    by_cases hv : id ∈ (traverse (delAct p) d.trailer d.objects).2.2
+    · simp only [hv, if_true, Option.map_some, e1]
+      exact ⟨nd', rfl, b2 _ h2, b1⟩
+    · simp only [hv, if_false]
+      exact ⟨nd, rfl, h2, h3⟩
+theorem treeOKL_delete (d : Doc) (p : ObjId) : ∀ (ks : List PT) (top : Option ObjId),
+    TreeOKL d.objects top ks → top ≠ some p → p ∉ nodeIdsL ks → NodesNoDup d.objects (nodeIdsL ks) →
+    TreeOKL (deleteObject d p).1.objects top ks
+  | [], _, _, _, _, _ => trivial
+  | t :: ts, top, h, htop, hp, hnd => by
+    simp only [TreeOKL] at h ⊢
+    simp only [nodeIdsL, List.mem_append, not_or] at hp
+    exact ⟨treeOK_delete d p t top h.1 htop hp.1 (fun x hx => hnd x (by simp [nodeIdsL, hx])),
+           treeOKL_delete d p ts top h.2 htop hp.2 (fun x hx => hnd x (by simp [nodeIdsL, hx]))⟩
+end
+
+/-- **C11, `delete_pages` on one page: the `Count` bookkeeping end to end.**  The document holds a page
+tree `t` with exact bookkeeping, distinct node ids, no page listed twice; page number `n` of the page list
+is the leaf `p`, a dictionary whose `Parent` is the node `q` that has it as a direct child; node and page
+dictionaries have distinct keys.  Then `delete_pages(&[n])`'s iteration returns, the page object is gone,
+and the bookkeeping is exact for the tree without `p`. -/
+theorem deletePage1_count (d : Doc) (pages : List ObjId) (n : Nat) (p q : ObjId) (t : PT) (pd : Dict)
+    (hn0 : n ≠ 0) (hpg : pages[n - 1]? = some p)
+    (hok : TreeOK d.objects none t) (hpar : IsParent q p t) (hnd : (nodeIds t).Nodup) (hlv : t.leaves.Nodup)
+    (hpn : p ∉ nodeIds t) (hdup : NodesNoDup d.objects (nodeIds t))
+    (hpo : d.objects.get p = some (.dict pd)) (hpdn : NoDup pd)
+    (hpp : (Dict.get pd PARENT).bind Obj.asRef = some q) (hqp : q ≠ p) :
+    ∃ d', deletePage1 pages d n = some d' ∧ d'.objects.get p = none ∧ TreeOK d'.objects none (removeLeaf p t) := by
+  have hD := treeOK_delete d p t none hok (by simp) hpn hdup
+  -- the object handed back by delete_object still names q as its Parent
+  have hret : ∃ pd', (deleteObject d p).2 = some (.dict pd') ∧ (Dict.get pd' PARENT).bind Obj.asRef = some q := by
+    obtain ⟨pd1, e1, b1, _⟩ := book_preserved p pd hpdn (some q) (by simp; exact hqp) hpp
+    have hv := (traverse_visits_once (delAct p) d.trailer d.objects).2.2 p
+    simp only [deleteObject]
+    rw [hv, hpo]
+    by_cases hvis : p ∈ (traverse (delAct p) d.trailer d.objects).2.2
+    · simp only [hvis, if_true, Option.map_some, e1]; exact ⟨pd1, rfl, b1⟩
+    · simp only [hvis, if_false]; exact ⟨pd, rfl, hpp⟩
+  obtain ⟨pd', hr1, hr2⟩ := hret
+  obtain ⟨os', w1, w2, w3⟩ := delete_pages_count p q t (deleteObject d p).1.objects hpar hnd hlv hD
+  refine ⟨{ (deleteObject d p).1 with objects := os' }, ?_, ?_, w2⟩
+  · unfold deletePage1
+    simp only [hn0, if_false, hpg]
+    cases hdo : deleteObject d p with
+    | mk d1 ro =>
+      rw [hdo] at hr1 w1
+      simp only at hr1 w1
+      subst hr1
+      simp only [Obj.asDict, Option.bind_some, hr2, w1, Option.map_some, hdo]
+  · simp only
+    rw [w3 p hpn]
+    exact (delete_effect d p).1
 
 end Lopdf.Ed
